@@ -230,6 +230,8 @@ STATIC = [
          clause="std.random gen_int_range never reaches the documented panic of rand's random_range (empty range) for any pair of Ints"),
     dict(engine="verus", unit="toplevel", function="call_thunk_top::on_error", name="C06/thread/call_thunk_top_on_error", source="vm/src/thread.rs::ThreadInternal::call_thunk_top (body of the or_else closure)",
          clause="whatever kind of error ends a top-level evaluation, the frames above the level recorded before it are removed (or reset_stack itself gave up); the evaluation's own error is reported, a panic with its stack trace"),
+    dict(engine="verus", unit="toplevel", function="execute_io_top::on_error", name="C06/thread/execute_io_top_on_error", source="vm/src/thread.rs::ThreadInternal::execute_io_top (body of the or_else closure)",
+         clause="the same guarantee for the IO entry point: whatever kind of error ends a top-level IO action, the frames above the recorded level are removed"),
     dict(engine="verus", unit="toplevel", function="return_future::ready", name="C06/thread/return_future_ready", source="vm/src/thread.rs::Context::return_future (poll closure, statements after the future is ready)",
          clause="the frame of an asynchronous primitive is unlocked on every path, also when pushing its (error) result fails, so that the error propagates and the stack can be reset"),
     v("stack", "reset_stack", "resetting the stack after a failed evaluation removes exactly the frames above `level`, top first, never one below it, and touches nothing else of the frame list", "vm/src/thread.rs::reset_stack"),
